@@ -160,6 +160,9 @@ func (ex *Exec) callFunction(fr *Frame, st *State, fn *ssa.Function, args, bindi
 		}
 		ex.depth++
 		sub := ex.newFrame(fn, false)
+		// recover() stops a panic only when called directly by a deferred function
+		sub.deferredDirectly = ex.nextFrameDeferred
+		ex.nextFrameDeferred = false
 		nrm, pnc := sub.run(st, args, bindings)
 		ex.depth--
 		if pnc != nil {
@@ -475,6 +478,11 @@ func (ex *Exec) builtin(fr *Frame, st *State, b *ssa.Builtin, c *ssa.CallCommon,
 	case "append":
 		return ex.appendBuiltin(fr, st, c, args)
 	case "recover":
+		if !fr.deferredDirectly {
+			// Go: recover returns nil and has no effect when it is not called
+			// directly by the deferred function
+			return Sc{nilIface()}
+		}
 		pv := ex.varOf(st, "panicking", SIface)
 		if _, ok := st.vars["panicking"]; !ok {
 			pv = nilIface()
